@@ -12,7 +12,7 @@ import random
 
 from harness import tlc
 from harness.ctor import CtorTable, subterms
-from harness.terms import canon, jkey, terms_equal, terms_pyeq, wire_match
+from harness.terms import get_opt, canon, jkey, terms_equal, terms_pyeq, wire_match
 
 ALL_KINDS = ["int", "float", "bool", "str", "date", "datetime", "time", "timedelta", "bytes", "bytearray",
              "uuid", "decimal", "fraction", "ipv4addr", "ipv6addr", "ipv4net", "ipv6net", "ipv4if", "ipv6if",
@@ -157,6 +157,24 @@ def _replay_group(args):
                     elif subj.mixin and isinstance(dec_exp[1], list) and not terms_equal(res[1], dec_exp[1]):
                         out["mism"].append({"clause": "error-detail", "T": T, "input": j, "expected": dec_exp, "actual": res})
                 out["nontrivial"].append(hashlib.sha1(jkey([T, j]).encode()).hexdigest())
+                # a format-mixin class is also entered through from_<format>() with the same document
+                fkind = get_opt(T[3], "mixin") if T[0] == "dc" and len(T) > 3 else None
+                if fkind in ("orjson", "msgpack", "json") and not dkw and dec_exp[0] == "ok":
+                    from harness.terms import abstract_value as _av, concretize_value as _cv2
+                    try:
+                        d = _cv2(j, subj.reg)
+                        if fkind == "msgpack":
+                            import msgpack as _mp
+                            y = subj.ann.from_msgpack(_mp.packb(d, use_bin_type=True))
+                        else:
+                            y = subj.ann.from_json(_json.dumps(d))
+                        fres = ["ok", _av(y, subj.reg)]
+                    except (TypeError, ValueError) as e:
+                        fres = None if type(e).__module__ in ("msgpack.exceptions", "builtins") and "serializ" in str(e) else norm_err(__import__("harness.real", fromlist=["x"]).abstract_exception(e, subj.reg))
+                    except Exception as e:  # noqa: BLE001
+                        fres = norm_err(__import__("harness.real", fromlist=["x"]).abstract_exception(e, subj.reg))
+                    if fres is not None and (fres[0] != "ok" or not terms_equal(fres[1], dec_exp[1])):
+                        out["mism"].append({"clause": "decode-format", "T": T, "input": j, "expected": dec_exp, "actual": fres, "format": fkind})
                 fresh = rec[4] if len(rec) > 4 else []
                 if fresh and res[0] == "ok":
                     import dataclasses as _dc
